@@ -93,6 +93,7 @@ class Interp:
         self.attached = set()          # loop specs that attached on this path
         self.inline_only = False
         self.modular_calls = 0
+        self.snapshot_yields = True
         self.opacity_events = []
         self.mbqi_fallback_ms = 0
         self.feas_rlimit = int(os.environ.get('PYVC_FEAS_RLIMIT', '100000'))
@@ -1129,6 +1130,9 @@ class Interp:
         hook = self.hooks.get("yield")
         if hook is not None:
             hook(self, env, v)
+        if self.snapshot_yields:
+            from . import lib
+            v = lib.deep_copy(self, v)      # what the consumer sees at the moment of the yield (generators are run eagerly)
         env.lookup("__yields__").elems.append(v)
         return None
 
